@@ -127,12 +127,14 @@ Section Session.
       destruct (enqueue_finv ord Hord g _ _ _ _ HI1 HE) as [HF [E1 [E2 [E3 [_ E5]]]]].
       splits; auto.
       + intros w Hw. apply in_app_or in Hw. destruct Hw; auto.
-      + rewrite E1. unfold pre_enqueue; simpl. intros Hk. apply add_all_In in Hk. auto.
-      + rewrite E1. unfold pre_enqueue; simpl. intros Hk. apply add_all_In. auto.
+      + simpl. split; auto.
+      + intros k. rewrite E1. unfold pre_enqueue; simpl. apply add_all_In.
     - unfold process in EP.
       pose proof (q_new_spec g refs qsort Hsort) as Hq.
       destruct (q_new qsort g refs) as [q| |]; try discriminate. destruct Hq as [HB HC].
-      destruct wants as [|w0 ws]; [discriminate|].
+      destruct wants as [|w0 ws].
+      { destruct (find_commons g q haves); try discriminate.
+        destruct (enqueue ord g _ _); discriminate. }
       pose proof (ensure_wants_spec g refs (w0 :: ws) q [] HB HC) as H.
       destruct (ensure_wants g q (w0 :: ws)) as [q1|s| |]; try discriminate.
       + destruct (find_commons g q1 haves); try discriminate.
@@ -227,10 +229,8 @@ Section Session.
         * exact R2.
         * intros f' E. destruct (R3 f' E) as [A' [B1 [B2 [B3 [B4 [B5 B6]]]]]].
           exists A'. splits; auto.
-          -- simpl. intros Hw. apply B3 in Hw. rewrite in_app_iff in *. tauto.
-          -- simpl. intros Hw. apply B3. rewrite in_app_iff in *. tauto.
-          -- simpl. intros Hk. apply B4 in Hk. rewrite in_app_iff. rewrite HK in Hk. tauto.
-          -- simpl. intros Hk. apply B4. rewrite in_app_iff in Hk. rewrite HK. tauto.
+          -- intros w. rewrite B3. simpl. rewrite !in_app_iff. tauto.
+          -- intros k. rewrite B4. simpl. rewrite in_app_iff, HK. tauto.
           -- congruence.
           -- eapply incl_tran; eauto.
       + destruct (run_rounds qsort ord g refs f rest) as [os1 fo1] eqn:ER. inversion H; subst.
@@ -240,7 +240,7 @@ Section Session.
         * intros f' E. destruct (R3 f' E) as [A' [B1 [B2 [B3 [B4 [B5 B6]]]]]].
           exists A'. splits; auto.
       + inversion H; subst. splits.
-        * intros r0 o [E|[]]. inversion E; subst. exact HP.
+        * simpl. rewrite combine_nil. intros r0 o [E|[]]. inversion E; subst. exact HP.
         * intros Hc Hr. exfalso. apply HP. auto.
         * discriminate.
       + contradiction.
@@ -255,6 +255,7 @@ Section Session.
     so_cover : forall w a, In w (accepted_wants rs os) -> anc g w a -> covered g (f_commons f) L a;
     so_sound : forall x, In x L -> exists w, In w (accepted_wants rs os) /\ anc g w x;
     so_tables : forall t, In t (concat (f_tlists f)) -> tbl_sound g depth (accepted_wants rs os) t;
+    so_wants_in : forall w, In w (accepted_wants rs os) -> In w (f_commons f) \/ In w L;
     so_wants : f_wants f = [];
     so_L : L = concat (f_clists f)
   }.
@@ -278,7 +279,8 @@ Section Session.
       unfold commits_to_send.
       assert (Hfl : match flush_wants ord g f0 with
                     | Fuel => False | ErrStore => ~ closed g | Ok _ => True end).
-      { unfold flush_wants. destruct (f_wants f0); auto. apply enqueue_total; auto. }
+      { unfold flush_wants. pose proof (enqueue_total f0 false Hw) as Ht.
+        destruct (f_wants f0); auto. }
       destruct (flush_wants ord g f0) as [f1| |] eqn:EF.
       + destruct (flush_finv ord Hord g A' f0 f1 B1 EF) as [F1 [F2 [F3 [F4 F5]]]].
         splits; auto.
@@ -290,13 +292,15 @@ Section Session.
           { intros w. rewrite B3. simpl. tauto. }
           constructor; auto.
           -- intros k. rewrite F2, B4. simpl. tauto.
-          -- intros w a Hw Ha. apply HA in Hw. destruct (I2 w Hw) as [Hp|[Hc|Hl]].
+          -- intros w a Hw0 Ha. apply HA in Hw0. destruct (I2 w Hw0) as [Hp|[Hc|Hl]].
              ++ rewrite F5 in Hp. destruct Hp.
              ++ right. exists w. auto.
              ++ eapply order_ok_closed; eauto.
-          -- intros x Hx. destruct (I3 x Hx) as [w [Hw Ha]]. exists w. split; auto. apply HA; auto.
-          -- intros t Ht. rewrite F3, B5 in I5. simpl in I5.
+          -- intros x Hx. destruct (I3 x Hx) as [w [Hw0 Ha]]. exists w. split; auto. apply HA; auto.
+          -- intros t Ht0. rewrite F3, B5 in I5. simpl in I5.
              eapply tbl_sound_incl; [|apply I5; auto]. intros w Hw'. apply HA; auto.
+          -- intros w Hw0. apply HA in Hw0. destruct (I2 w Hw0) as [Hp|[Hc|Hl]]; auto.
+             rewrite F5 in Hp. destruct Hp.
       + splits; auto.
         * discriminate.
         * intros Hc _. contradiction.
